@@ -128,6 +128,11 @@ class FakeAsyncZeroconf:
 
 class FakeServiceInfo:
     def __init__(self, type_: str, name: str, *a: Any, server: str | None = None, **k: Any) -> None:
+        # the real ServiceInfo validates the instance name in its constructor (label length, control characters, ...): same check, same exception
+        from zeroconf import BadTypeInNameException, service_type_name  # noqa: PLC0415
+
+        if not type_.endswith(service_type_name(name, strict=False)):
+            raise BadTypeInNameException
         self.type = type_
         self.name = name
         self.server = server
